@@ -66,6 +66,10 @@ func init() {
 		return outcome(err)
 	})
 	core.Register("C14.censorconfig", func(a []string) string {
+		// query_capture handlers create their log files where the (mutated) configuration says: keep them in a
+		// scratch directory, never in the working directory of the check
+		restore := chdirScratch()
+		defer restore()
 		c := acracensor.NewAcraCensor()
 		defer c.ReleaseAll()
 		return outcome(c.LoadConfiguration(core.UnHex(a[0])))
@@ -384,6 +388,31 @@ func isASCII(s string) bool {
 		}
 	}
 	return true
+}
+
+var scratchDir string
+
+// chdirScratch changes into a per-process scratch directory and returns the function that changes back.
+func chdirScratch() func() {
+	if scratchDir == "" {
+		d, err := os.MkdirTemp("", "verif-c14-")
+		if err != nil {
+			panic("harness: " + err.Error())
+		}
+		scratchDir = d
+	}
+	old, err := os.Getwd()
+	if err != nil || os.Chdir(scratchDir) != nil {
+		return func() {}
+	}
+	return func() {
+		os.Chdir(old)
+		if es, err := os.ReadDir(scratchDir); err == nil && len(es) > 256 {
+			for _, e := range es {
+				os.RemoveAll(filepath.Join(scratchDir, e.Name()))
+			}
+		}
+	}
 }
 
 func firstLine(s string) string {
